@@ -83,11 +83,12 @@ structure St where
   dirs : List Run
   files : Files
   nums : List Int        -- chanNumbers: the channel number of each channel (fixed once the source runs)
+  running : Bool         -- the source runs (a CoreLoop serves requests and blocks)
 deriving Repr, DecidableEq
 
 def St.init (proj : List Bool) (pre : List Run) (nums : List Int) : St :=
   { ws := { active := false, paused := false, base := none, pat := none, l22 := false, off := false, l3 := false },
-    chans := proj.map Chan.new, dirs := pre, files := [], nums }
+    chans := proj.map Chan.new, dirs := pre, files := [], nums, running := true }
 
 /-! ### Request strings -/
 
@@ -191,6 +192,8 @@ inductive Op where
       -- `map`: number of pixels of the map the server holds when the request arrives (`none`: no map)
   | pub (counts : List Nat)
   | proj (ch : Nat)
+  | srcEnd       -- the source ends BY ITSELF (the producer reports an error, CoreLoop returns)
+  | srcStart     -- the source is started (again): real `Start`, fresh processors
 deriving Repr, DecidableEq
 
 /-- `WritingState.Stop` -/
@@ -232,9 +235,8 @@ def startReq (s : St) (path : Option Nat) (l22 off l3 : Bool) (map : Option Nat)
               dirs := r :: s.dirs,
               ws := { active := true, paused := false, base := some r.pid, pat := some r, l22, off, l3 } }, false)
 
-/-- one step; the Bool is "the request returned an error" -/
-def step (s : St) : Op → St × Bool
-  | .req r path l22 off l3 map =>
+/-- a `WriteControl` request that reaches the running source -/
+def reqStep (s : St) (r : List Nat) (path : Option Nat) (l22 off l3 : Bool) (map : Option Nat) : St × Bool :=
     match classify r with
     | .pause =>
       ({ s with chans := s.chans.map (·.setPause true), ws := { s.ws with paused := true } }, false)
@@ -245,10 +247,26 @@ def step (s : St) : Op → St × Bool
     | .stop => ({ s with chans := s.chans.map (·.removeAll), ws := s.ws.stop }, false)
     | .start => startReq s path l22 off l3 map
     | .invalid => (s, true)
+
+/-- one step; the Bool is "the request returned an error" -/
+def step (s : St) : Op → St × Bool
+  | .req r path l22 off l3 map =>
+    if s.running then reqStep s r path l22 off l3 map
+    else (s, true)                                     -- "no source is active": refused by the RPC layer
   | .pub counts =>
     let r := pubAll 0 s.chans counts s.files
     ({ s with chans := r.1, files := r.2 }, false)
   | .proj ch => ({ s with chans := setProj s.chans ch }, false)
+  | .srcEnd =>
+    -- CoreLoop's deferred clean-up: `if ds.WritingIsActive() { ds.WriteControl(STOP) }`
+    if s.running && s.ws.active then
+      ({ s with running := false, chans := s.chans.map (·.removeAll), ws := s.ws.stop }, false)
+    else ({ s with running := false }, false)
+  | .srcStart =>
+    -- `Start`: refused unless the source is inactive; `PrepareRun` makes fresh processors
+    -- (no writers, no projectors, not paused); the WritingState object lives on
+    if s.running then (s, true)
+    else ({ s with running := true, chans := s.chans.map fun _ => Chan.new false }, false)
 
 /-! ### Observations -/
 
@@ -361,6 +379,13 @@ def chkStep (o : OSt) (op : Op) (err : Bool) (after : Obs) : Except Bad OSt :=
   | .proj ch =>
     if sameFiles o.prev.files after.files then .ok { o with prev := after, proj := setTrue o.proj ch }
     else .error .requestTouchedFiles
+  | .srcEnd =>
+    if sameFiles o.prev.files after.files then .ok { o with prev := after }
+    else .error .requestTouchedFiles
+  | .srcStart =>
+    if !sameFiles o.prev.files after.files then .error .requestTouchedFiles
+    else if err then .ok { o with prev := after }
+    else .ok { o with prev := after, elig := o.elig.map fun _ => false, proj := o.proj.map fun _ => false }
 
 def chkRun : OSt → List Op → List (Bool × Obs) → Except Bad OSt
   | o, [], _ => .ok o
@@ -394,6 +419,8 @@ inductive InOp where
   | d (ch n : Nat)
   | p (ch : Nat)
   | m
+  | x
+  | r
 
 def optOfInt (i : Int) : Option Nat := if i < 0 then none else some i.toNat
 
@@ -410,6 +437,8 @@ def parseInOp : P InOp := do
   | "D" => do let ch ← nat; let n ← nat; pure (.d ch n)
   | "P" => do let ch ← nat; pure (.p ch)
   | "M" => do let _ ← int; pure .m
+  | "X" => pure .x
+  | "R" => pure .r
   | _ => fail s!"bad op {t}"
 
 /-- what the implementation reported after one op -/
@@ -434,6 +463,8 @@ def parseRes (op : InOp) : P ImplRes := do
     | .b, "R" => do let cs ← list nat; pure (false, cs, none)
     | .d ch n, "-" => pure (false, List.replicate ch 0 ++ [n], none)
     | .m, "-" => pure (false, [], none)
+    | .x, "-" => pure (false, [], none)
+    | .r, "E" => do let e ← bool; pure (e, [], none)
     | _, _ => fail s!"bad result {t}" : P (Bool × List Nat × Option Nat))
   kw "S"
   let a ← bool; let p ← bool; let l22 ← bool; let off ← bool; let l3 ← bool
@@ -458,6 +489,8 @@ def modelOp : InOp → ImplRes → Op
   | .b, res => .pub res.counts
   | .d .., res => .pub res.counts
   | .p ch, _ => .proj ch
+  | .x, _ => .srcEnd
+  | .r, _ => .srcStart
 
 def badMsg (k : Nat) : Bad → String
   | .rejectedChanged => s!"C06:rejected-not-noop a rejected request (op {k}) changed the reported state or the stored records"
@@ -482,6 +515,8 @@ def opTag (op : Op) (err : Bool) : List String :=
     | .invalid, _ => ["invalid-request"]
   | .pub _ => []
   | .proj _ => ["load-projectors"]
+  | .srcEnd => ["source-ended"]
+  | .srcStart => if err then ["source-start-refused"] else ["source-restarted"]
 
 def parseAll : List InOp → P (List (InOp × ImplRes))
   | [] => pure []
